@@ -43,6 +43,56 @@ def oracle(ctx, st, req, agent, rec, trace):
     return False
 
 
+def dense_dags(ctx, r):
+    """a handful of tasks and many `sequence a b` requests in random directions: reconvergent shapes (several paths between two tasks, shared
+    prerequisites) in every id order.  Each answer is compared with a path search over the edges accepted so far: a request that would close a
+    cycle is refused and nothing else is; the graph invariants are re-checked on the real store after every step."""
+    st = cmdrun.Store(ctx.ergo, ctx.go)
+    trace = []
+    try:
+        def ex(argv, stdin=None):
+            res = st.exec(argv, stdin); trace.append({"argv": argv, "stdin": None if stdin is None else stdin.decode(), "exit": res["exit"]}); return res
+        ids = [json.loads(ex(["--json", "new", "task"], json.dumps({"title": "t%d" % i}).encode())["stdout"])["id"] for i in range(4 + r.n(4))]
+        waits = set()          # (x, y): x waits for y
+        def reaches(x, y):
+            seen, todo = set(), [x]
+            while todo:
+                n = todo.pop()
+                if n == y:
+                    return True
+                if n in seen:
+                    continue
+                seen.add(n)
+                todo += [b for (a, b) in waits if a == n]
+            return False
+        for _ in range(6 * len(ids)):
+            a, b = r.pick(ids), r.pick(ids)
+            res = ex(["--json", "sequence", a, b])          # b waits for a
+            closes = a == b or reaches(a, b)
+            ctx.count(1, key=("dense-dag", len(ids), closes, res["exit"] == 0))
+            if res["exit"] == 0 and closes:
+                ctx.violation("C07 an edge that closes a cycle was accepted", "sequence %s %s accepted although %s already waits (transitively) for %s" % (a, b, a, b), {"trace": trace}); return
+            if res["exit"] != 0 and not closes:
+                ctx.violation("C07 an edge that closes no cycle was refused", "sequence %s %s: exit %s %s" % (a, b, res["exit"], res["stderr"].strip()[:120]), {"trace": trace}); return
+            if res["exit"] == 0:
+                waits.add((b, a))
+            g = st.graph()
+            bad = oracles.inv07(g["graph"]) if "graph" in g else [("unreadable", g.get("err"))]
+            if bad:
+                ctx.violation("C07 %s via sequence" % (bad[0][0] if isinstance(bad[0], (list, tuple)) else bad[0]), "dependency invariant broken: %s" % (bad[:3],), {"trace": trace}); return
+        # and every request that would close a cycle in the graph reached, one after the other (each is refused, so the graph stays as it is)
+        for a in ids:
+            for b in ids:
+                if a == b or not reaches(a, b):
+                    continue
+                res = ex(["--json", "sequence", a, b])
+                ctx.count(1, key=("dense-dag closing edge", len(ids), res["exit"] == 0))
+                if res["exit"] == 0:
+                    ctx.violation("C07 an edge that closes a cycle was accepted", "sequence %s %s accepted although %s already waits (transitively) for %s" % (a, b, a, b), {"trace": trace}); return
+    finally:
+        st.close()
+
+
 def run(ctx):
     res = fndiff.run_stream(ctx.ev, ["fn-replay", str(ctx.seed + 700), "1500" if ctx.quick else "20000"])
     ctx.tie("T2-fn replay/hasCycle", cases=res["cases"], classes=res["classes"], disagreements=len(res["diffs"]))
@@ -52,6 +102,8 @@ def run(ctx):
     r = gen.Rng(ctx.seed * 1000003 + 7)
     for h in range(25 if ctx.quick else 400):
         run_history(ctx, r.fork(), 40, WEIGHTS, oracle, gen_fn=gen_fn)
+    for i in range(8 if ctx.quick else 150):
+        dense_dags(ctx, r.fork())
     # the cycle test and the write must see the same log: sequence ∥ sequence asking for the two directions of one edge (and sequence ∥ any
     # other writer) on the real binary, A parked before / inside / after its lock section; the graph must stay acyclic in every schedule
     framework.check_facts(ctx, ctx.facts, ["lock_sites", "writer_calls", "with_lock", "sections"])
